@@ -101,3 +101,6 @@ Fixpoint gs_map_set {V} (m : list (gstr * V)) (k : gstr) (v : V) : list (gstr * 
   end.
 Definition gs_is_some {A} (o : option A) : bool := match o with Some _ => true | None => false end.
 Definition gs_get {A} (d : A) (o : option A) : A := match o with Some v => v | None => d end.
+(* a method call through a pointer that may be nil (None): the guard gs_is_some comes first *)
+Definition gs_find {H} (f : H -> gstr -> option H * bool) (p : option H) (k : gstr) : option H * bool :=
+  match p with Some h => f h k | None => (None, false) end.
